@@ -186,13 +186,17 @@ impl Array {
 
         let values_length = self.values.len();
         // the stride between two convolution outputs
-        let stride = values_length / filter_count;
+        let stride = row_stride_count * col_stride_count;
+        // the length of each image in the batch
+        let image_length = stride * filter_count;
         let mut result = vec![0.0; values_length];
         let mut result_index = 0;
-        for k in 0..filter_count {
-            for i in 0..stride {
-                result[result_index] = self.values[k + filter_count * i];
-                result_index += 1;
+        for offset in (0..values_length).step_by(image_length) {
+            for k in 0..filter_count {
+                for i in 0..stride {
+                    result[result_index] = self.values[offset + k + filter_count * i];
+                    result_index += 1;
+                }
             }
         }
 
@@ -212,10 +216,12 @@ impl Array {
             let backward_op: BackwardOp = Rc::new(move |c, _, x| {
                 let mut result = vec![0.0; values_length];
                 let mut delta_index = 0;
-                for k in 0..filter_count {
-                    for i in 0..stride {
-                        result[k + filter_count * i] = x.values[delta_index];
-                        delta_index += 1;
+                for offset in (0..values_length).step_by(image_length) {
+                    for k in 0..filter_count {
+                        for i in 0..stride {
+                            result[offset + k + filter_count * i] = x.values[delta_index];
+                            delta_index += 1;
+                        }
                     }
                 }
 
